@@ -360,6 +360,7 @@ let step_preds : (string * (vconfig -> fstep -> bool)) list = [
   ("c02_d2_class_neg", (fun c st -> not (c02_d2_class c st)));
   ("c02_d8_class_neg", (fun c st -> not (c02_d8_class c st)));
   ("c02_d9_class_neg", (fun c st -> not (c02_d9_class c st)));
+  ("c02_zero_window_waker_or_d9", (fun c st -> c02_zero_window_waker c st || c02_d9_class c st));
   ("c02_d14_class_neg", (fun c st -> not (c02_d14_class c st)));
 ]
 let trace_preds : (string * (vconfig -> fstep list -> bool)) list = [
